@@ -175,6 +175,8 @@ def match_known(prop, violation, known):
             continue
         if e.get("oracle") and e["oracle"] != violation["oracle"]:
             continue
+        if e.get("oracles") and violation["oracle"] not in e["oracles"]:
+            continue
         pred = e.get("match", {})
         tags = violation.get("tags", {})
         if all(tags.get(k) == v for k, v in pred.items()):
